@@ -1,5 +1,6 @@
 import Tmv.Drv.Core
 import Tmv.Model.MConn
+import Tmv.Model.PeerMsgs
 namespace Tmv.Drv.C17
 open Tmv Tmv.MConn
 
@@ -102,6 +103,42 @@ def parsePacket (toks : List String) : Option Packet := do
     pure (.msg { chId := ch, eof := eof, data := data })
   | _ => none
 
+def parseBits (toks : List String) : Option (Option PeerMsgs.BitArr) := do
+  let b ← kv toks "bits"
+  let e ← (← kv toks "elems").toNat?
+  if b = "nil" then pure none else
+  let bi ← b.toInt?
+  pure (some { bits := bi, elems := e })
+
+def verdict (b : Bool) : String := if b then "ok" else "stopped"
+
+/-- the verdict of `Reactor.Receive` for the consensus messages whose `ValidateBasic` is modelled
+(initial height 1): valid → handled, invalid → `StopPeerForError` -/
+def modelledVerdict (kind : String) (toks : List String) : Option String := do
+  let int (k : String) : Option Int := (kv toks k).bind String.toInt?
+  match kind with
+  | "newroundstep" =>
+    let m : PeerMsgs.NewRoundStep :=
+      { height := ← int "h", round := ← int "r", step := ← (← kv toks "s").toNat?, lastCommitRound := ← int "lcr" }
+    pure (verdict (m.valid 1))
+  | "newvalidblock" =>
+    let m : PeerMsgs.NewValidBlock :=
+      { height := ← int "h", round := ← int "r", total := ← (← kv toks "total").toNat?,
+        hashLen := ← (← kv toks "hashlen").toNat?, parts := ← parseBits toks }
+    pure (verdict m.valid)
+  | "proposalpol" =>
+    let m : PeerMsgs.ProposalPOL := { height := ← int "h", polRound := ← int "polr", pol := ← parseBits toks }
+    pure (verdict m.valid)
+  | "hasvote" =>
+    let m : PeerMsgs.HasVote := { height := ← int "h", round := ← int "r", type := ← int "t", index := ← int "idx" }
+    pure (verdict m.valid)
+  | "votesetbits" =>
+    let m : PeerMsgs.VoteSetBits :=
+      { height := ← int "h", round := ← int "r", typeOk := ← parseBool (← kv toks "tok"),
+        blockIdOk := ← parseBool (← kv toks "bidok"), votes := ← parseBits toks }
+    pure (verdict m.valid)
+  | _ => none
+
 def step (st : St) (toks : List String) : St × String :=
   match toks with
   | "sconn" :: rest =>
@@ -178,7 +215,12 @@ def step (st : St) (toks : List String) : St × String :=
   | "rmsg" :: rest =>
     if ¬ st.reactor then (st, "bad-op") else
     match kv rest "kind", kv rest "expect" with
-    | some _k, some e => (st, e)
+    | some k, some e =>
+      if ["newroundstep", "newvalidblock", "proposalpol", "hasvote", "votesetbits"].contains k then
+        match modelledVerdict k rest with
+        | some v => (st, v)
+        | none => (st, "bad-op")
+      else (st, e)
     | _, _ => (st, "bad-op")
   | "gossip" :: rest =>
     if ¬ st.reactor then (st, "bad-op") else
